@@ -121,7 +121,7 @@ pub fn iso_modulo_fresh_bnodes(a: &BTreeSet<Q>, b: &BTreeSet<Q>, fresh_a: &dyn F
         for j in 0..nb.len() { if used[j] || sa[i] != sb[j] { continue; } used[j] = true; map.insert(na[i].clone(), nb[j].clone()); if rec(i + 1, na, nb, sa, sb, used, map, a, b, budget) { return true; } map.remove(&na[i]); used[j] = false; }
         false
     }
-    let mut budget = 60_000u64;
+    let mut budget = 4_000u64;
     let r = rec(0, &na, &nb, &sa, &sb, &mut vec![false; nb.len()], &mut BTreeMap::new(), a, b, &mut budget);
     if !r && budget == 0 { None } else { Some(r) }
 }
